@@ -344,6 +344,15 @@ def run(ctx, host=None):
     from .c14 import import_mapping_and_flush
     import_mapping_and_flush(ctx, chk, R6)
 
+    # single-key views are defined by delegation to the bulk machinery (no second implementation that could answer differently): shared call-graph rule
+    from .c02 import key_views_funnel_only
+    from .common import Summaries
+    key_views_funnel_only(ctx, chk, R2, Summaries(ctx))
+    # importing is one of the bulk operations of this property: its rules (C14) are hosted
+    if host is None:
+        from ..report import host_modules
+        host_modules(chk, ctx, ['C14'])
+
     return chk.finish(
         explanation=('Sibling-agreement analysis of the four two-strategy lookups (each normalised to a term: set, threshold, chunk source and size, IN column, ordered scan, right '
                      'side, left_key column, kept location, selected columns, accumulator and item; all fields compared), de-duplication and missing handling of the read funnel, '
